@@ -515,7 +515,7 @@ VERSION_OPS = {
 
 def r5_one_version_predicate(ctx):
     R = ctx.rule("C01.R5", "inside router.rs handlers are selected by version only through ApiEndpointVersions::matches(handler.versions, caller's version); "
-                 "find_handler_matching_version returns Iterator::find of exactly that predicate over its argument", floor=10)
+                 "find_handler_matching_version returns Iterator::find of exactly that predicate over its argument", floor=8)
     seen = {}
     for f in ctx.ds.F.values():
         if not f.id.startswith("router::"):
@@ -648,7 +648,7 @@ def r7_versioned_routes_need_versioned_server(ctx):
     R = ctx.rule("C01.R7", "a router that holds any endpoint with a version range is never served without a version policy: has_versioned_routes starts false, is only ever set to true, "
                  "is set on every path of insert that registers an endpoint whose versions != All, is what has_versioned_routes() returns, and the one place that builds the server state "
                  "refuses (Err, nothing built) when the policy is Unversioned and that accessor is true (otherwise every range matches version None and the first registered endpoint wins)",
-                 floor=9)
+                 floor=8)
     ins = _ins(ctx, R)
     rf = [f["name"] for f in (ctx.ds.adt_fields("router::HttpRouter") or [])]
     if FLAG not in rf:
